@@ -325,6 +325,14 @@ def faults(model, cfg, facts):
     m, c = mod()
     c['names_form'] = 'subclass'
     yield 'names-as-str-subclass', m, c
+    # --- EXTENSION (valid): the encapsulee name as an instance of a user's subclass of NamespaceIds; the selections as instances
+    #     of a user's subclass of PortSelect
+    m, c = mod()
+    c['enc_form'] = 'subclass'
+    yield 'enc-name-as-namespaceids-subclass', m, c
+    m, c = mod()
+    c['names_form'] = 'selsubclass'
+    yield 'selections-as-portselect-subclass', m, c
     # --- facilities origin that is not a member of the enumeration
     for raw in ('RAW:None', 'RAW:str', 'RAW:value', 'RAW:int', 'RAW:other-enum-create', 'RAW:other-enum-import'):
         m, c = mod()
